@@ -64,6 +64,24 @@ def is_numberlike_zero_array(obj):
     """
     return is_numberlike_array(obj) and obj.item() == 0
 
+def has_accurate_inverse(matrix):
+    """
+    Checks that a square ndarray has an inverse that numpy can actually compute,
+    by multiplying the computed inverse back onto the matrix.
+
+    LAPACK only reports exact zero pivots. Rounding can hide the singularity of a
+    matrix such as [[1, 0, 0], [1, 2, 2], [2, 1, 1]], whose computed "inverse" then
+    has entries of order 1e16; ill-conditioned but invertible matrices such as
+    [[1e-8, 0], [0, 1e8]] pass.
+    """
+    try:
+        inverse = np.linalg.inv(matrix)
+    except np.linalg.LinAlgError:
+        return False
+    if not np.all(np.isfinite(inverse)):
+        return False
+    return bool(np.allclose(np.dot(matrix, inverse), np.eye(matrix.shape[0]), rtol=0, atol=1e-6))
+
 def is_square(array):
     return array.ndim == 2 and array.shape[0] == array.shape[1]
 
@@ -326,6 +344,8 @@ class MathArray(np.ndarray):
         else:
             # just in case it had been an integer-like float
             exponent = int(exponent)
+            if exponent < 0 and not has_accurate_inverse(np.asarray(self)):
+                raise MathArrayError('Cannot raise singular matrix to negative powers.')
             try:
                 return np.linalg.matrix_power(self, exponent)
             except np.linalg.LinAlgError as error:
